@@ -61,12 +61,15 @@ def tip_path(case):
     if samp == "quadratic":
         ua = ua ** 1.7
         ur = 1 - (1 - ur) ** 1.7
-    elif samp == "jitter":
+    elif samp in ("jitter", "dither"):
+        # jitter keeps the path monotonic; dither (a ramp with a z-dither / position sensor noise of +-1.6 sample
+        # steps) does not: neighbouring samples swap places, only the end points stay where they are
+        amp = 0.4 if samp == "jitter" else 1.6
         rng = np.random.RandomState(int(case.get("noise_seed", 0)) + 7919)
         for u in (ua, ur):
             if u.size > 2:
                 step = np.min(np.diff(u))
-                u[1:-1] += rng.uniform(-0.4, 0.4, size=u.size - 2) * step
+                u[1:-1] += rng.uniform(-amp, amp, size=u.size - 2) * step
     ring = case.get("ring")
     if ring:
         # the piezo holds the turning point for ``n`` samples (recorded with the retract) while the
